@@ -121,6 +121,63 @@ func (vc *VC) initState(sp *ssa.Package) (*State, error) {
 	return vc.runInits(sp, true)
 }
 
+// addInits runs the initialisers of sp and its dependencies that have not run in st yet.
+func (vc *VC) addInits(st *State, sp *ssa.Package) error {
+	for _, p := range vc.eng.repoDeps(sp) {
+		initFn := p.Func("init")
+		if initFn == nil {
+			continue
+		}
+		// already initialised in this state: one of its globals has a cell
+		done := false
+		for _, m := range p.Members {
+			if g, ok := m.(*ssa.Global); ok {
+				if c, ok := vc.globals[g]; ok {
+					if _, ok := st.mem[c]; ok {
+						done = true
+					}
+				}
+			}
+		}
+		if done {
+			continue
+		}
+		var err error
+		func() {
+			defer func() {
+				if r := recover(); r != nil {
+					if x, ok := r.(execError); ok {
+						err = fmt.Errorf("init of %s: %s", p.Pkg.Name(), x.msg)
+						return
+					}
+					panic(r)
+				}
+			}()
+			vc.dry++
+			vc.initRunning = p
+			outs := vc.callFunction(initFn, nil, nil, st, nil)
+			vc.initRunning = nil
+			vc.initDone[p] = true
+			vc.dry--
+			var ok []Outcome
+			for _, o := range outs {
+				if !o.Panic {
+					ok = append(ok, o)
+				}
+			}
+			if len(ok) != 1 {
+				err = fmt.Errorf("init of %s has %d normal paths", p.Pkg.Name(), len(ok))
+				return
+			}
+			*st = *ok[0].St
+		}()
+		if err != nil {
+			return err
+		}
+	}
+	return nil
+}
+
 func (vc *VC) runInits(sp *ssa.Package, includeSelf bool) (*State, error) {
 	st := &State{mem: map[*Cell]Val{}}
 	var err error
@@ -582,6 +639,17 @@ func (vc *VC) proveLemma(lm *Lemma) (rep *FuncReport) {
 	if err != nil {
 		rep.Error = err.Error()
 		return
+	}
+	for _, u := range lm.Uses {
+		up := vc.eng.byName[u]
+		if up == nil {
+			rep.Error = "lemma uses unknown package " + u
+			return
+		}
+		if err := vc.addInits(st, up); err != nil {
+			rep.Error = err.Error()
+			return
+		}
 	}
 	bound := map[string]SV{}
 	for _, p := range lm.Params {
